@@ -196,7 +196,7 @@ def run(ctx):
                 continue
             res.violate("e2e-time", case, "C12 oracle", {"trace": trace[-4:], "results": results[-4:]}, what, {"kind": "timeliness" if "window" in what or "failed with" in what else "discovery", "after_reboot": after_reboot})
         cases.append((case, trace))
-        reqs.append({"op": "disco.run", "ctx": ctx_engine.hex(), "engine_id": RA.V3Config().engine_id.hex(), "boots": boots, "start": start, "events": events})
+        reqs.append({"op": "disco.run", "auth": level != "noauth", "ctx": ctx_engine.hex(), "engine_id": RA.V3Config().engine_id.hex(), "boots": boots, "start": start, "events": events})
     if ctx.driver_ok:
         for (case, trace), ans in zip(cases, run_driver(reqs)):
             evs = case["events"]
